@@ -70,7 +70,10 @@ def generate(ctx):
                 ops.append({"op": "reconstrain", "dim": dim, "size": sz})
             elif r < 0.9:
                 nd2 = rng.choice([nd, nd, rng.randint(1, 4)])
-                ops.append({"op": "assign", "shape": [rng.randint(1, 4) for _ in range(nd2)]})
+                shp = [rng.randint(1, 4) for _ in range(nd2)]
+                if nd2 > 1 and rng.random() < 0.25:
+                    shp[rng.randrange(nd2)] = 0     # no elements but more than one dimension: NOT an ignorable value, constraints apply
+                ops.append({"op": "assign", "shape": shp})
             else:
                 ops.append({"op": "assign_none"})
         yield {"part": "shaped", "shape": shape, "storage": rng.choice(["buffer", "param", "none", "empty"]),
